@@ -4,6 +4,8 @@ import (
 	"context"
 	"errors"
 	"fmt"
+	"os"
+	"strconv"
 	"strings"
 	"time"
 
@@ -220,6 +222,13 @@ func perms(n int) [][]int {
 func runC09(tier string, r *rng) {
 	e := newP2PEnv(6)
 	defer e.closer()
+	if line := os.Getenv("VERIF_REPLAY_CASE"); line != "" {
+		kv := kvOf(line)
+		trusted, _ := strconv.Atoi(kv["trusted"])
+		R, _ := strconv.ParseUint(kv["R"], 10, 64)
+		e.c09Case(strings.Split(kv["answers"], ","), atoiList(kv["order"]), trusted, R)
+		return
+	}
 	alphabetT := []string{"main:60", "main:60", "fork:60", "main:61", "main:58", "fail:notfound", "fail:garbage", "fail:invalid", "fail:wrongchain", "fail:empty", "fail:reset", "fail:status", "hang"}
 	// trusted-peers path: 1..3 peers exhaustive over a reduced alphabet and all arrival orders
 	small := []string{"main:60", "fork:60", "main:61", "fail:notfound", "hang"}
